@@ -132,10 +132,10 @@ def from_memref_type(t, runtime_shape=None, runtime_strides=None, runtime_offset
 
     shape = [s for s in t.get_shape()]
     if runtime_shape is not None:
-        shape = [rs if s == -1 else s for s, rs in zip(shape, runtime_shape)]
+        shape = [rs if s < 0 else s for s, rs in zip(shape, runtime_shape)]
     lay = t.layout
     if isinstance(lay, NoneAttr):
-        if any(s == -1 for s in shape):
+        if any(s < 0 for s in shape):
             raise ValueError("dynamic shape without runtime shape")
         return row_major(shape)
     if isinstance(lay, StridedLayoutAttr):
